@@ -166,14 +166,14 @@ def entry_mixed(P, app, sid, cols, rng_, clauses):
 
 
 # ---- finding classes ------------------------------------------------------------------------------------------
-def finding_class(entry, backend, cols, rng_, clauses, kinds_by_name=None, expected_empty=False):
+def finding_class(entry, backend, cols, rng_, clauses, kinds_by_name=None, expected_empty=False, src_empty=False):
     """narrow classes of the open findings (known_findings.d/C04.json)"""
     if entry == "mixed":          # URL selection + operators: the operator path's classes apply
         entry = "operators"
+    if backend in ("it", "csv") and src_empty:
+        return "C04.lazy.no_source_records"
     colcol = any(rc[2][0] == "name" for (_, _, _, rc) in clauses)
     strcl = kinds_by_name is not None and any(kinds_by_name[rc[0]] == "t" for (_, _, _, rc) in clauses)
-    if backend in ("it", "csv") and expected_empty:
-        return "C04.lazy.empty_result"
     if backend == "np" and strcl:
         return "C04.numpy.string_clause"
     if colcol and (entry == "operators" or backend in ("it", "csv")):
@@ -196,7 +196,7 @@ def check_case(ctx, P, backend, names, kinds, rows, cols, rng_, clauses, cases, 
     if rng_ is not None:
         exp = exp[slice(rng_[0], rng_[2] + 1, rng_[1])]
     exp_text = canon_rows(exp)
-    case = {"raw_class": finding_class("raw", backend, cols, rng_, cl, dict(zip(names, kinds)), not exp),
+    case = {"raw_class": finding_class("raw", backend, cols, rng_, cl, dict(zip(names, kinds)), not exp, not rows),
             "backend": backend, "names": names, "kinds": kinds, "rows": [list(r) for r in rows], "cols": cols,
             "range": list(rng_) if rng_ else None, "clauses": [[a, o, b, [rc[0], rc[1], list(rc[2])]] for (a, o, b, rc) in cl],
             "ce": ce}
@@ -219,7 +219,7 @@ def check_case(ctx, P, backend, names, kinds, rows, cols, rng_, clauses, cases, 
                         ctx.oracle_fail("mixed entry: the sequence opened with a URL selection reads other rows %s deriving "
                                         "from it with the operators" % label, dict(case, entry=entry), t, base_exp,
                                         cls=finding_class("operators", backend, None, None, url_cl,
-                                                          dict(zip(names, kinds)), base_exp == canon_rows([])), size=size)
+                                                          dict(zip(names, kinds)), base_exp == canon_rows([]), not rows), size=size)
             else:
                 got_cols, got = entry_operators(P, app, sid, cols, rng_, cl)
             try:
@@ -241,7 +241,7 @@ def check_case(ctx, P, backend, names, kinds, rows, cols, rng_, clauses, cases, 
         if text != exp_text:
             ctx.oracle_fail("%s entry: rows differ from the reference filter/project/slice" % entry,
                             dict(case, entry=entry), text, exp_text,
-                            cls=finding_class(entry, backend, cols, rng_, cl, dict(zip(names, kinds)), not exp), size=size)
+                            cls=finding_class(entry, backend, cols, rng_, cl, dict(zip(names, kinds)), not exp, not rows), size=size)
     ctx.count((backend, tuple(names), tuple(rows), ce), bool(cl) or cols is not None or rng_ is not None,
               tag="%s:%s:cl%d:%s:%s" % (where, backend, len(cl), "cols" if cols else "whole", "range" if rng_ else "all"),
               sample=dict(case, expected=exp_text[:120]))
@@ -302,8 +302,7 @@ def explore(ctx, P, tier, search=False):
 W_NAMES, W_KINDS = ["i", "f", "t"], ["i", "f", "t"]
 W_ROWS = [(1, 1.5, "ab"), (2, 1.5, "cd"), (3, 2.5, "ab"), (4, -1.0, "b")]
 WITNESS = {
-    "C04.lazy.empty_result": dict(backend="it", cols=None, rng_=None, entry="raw",
-                                  clauses=[("s.i", ">", "9", ("i", ">", ("const", 9)))]),
+    "C04.lazy.no_source_records": dict(backend="it", cols=None, rng_=None, entry="raw", clauses=[], rows=[]),
     "C04.numpy.string_clause": dict(backend="np", cols=None, rng_=None, entry="raw",
                                     clauses=[("s.t", "=", '"ab"', ("t", "=", ("const", "ab")))]),
     "C04.column_vs_column": dict(backend="it", cols=None, rng_=None, entry="raw",
@@ -328,7 +327,7 @@ def witness_fails(P, key):
     rec = Rec()
     tmpdir = tempfile.mkdtemp(prefix="c04w-")
     try:
-        check_case(rec, P, w["backend"], W_NAMES, W_KINDS, W_ROWS, w["cols"], w["rng_"], w["clauses"], [], tmpdir,
+        check_case(rec, P, w["backend"], W_NAMES, W_KINDS, w.get("rows", W_ROWS), w["cols"], w["rng_"], w["clauses"], [], tmpdir,
                    "witness", (w["entry"],))
     finally:
         shutil.rmtree(tmpdir, ignore_errors=True)
